@@ -24,7 +24,7 @@ import seams
 import world as W
 from peer import PEER
 
-TB_KINDS = {'tb', 'tbstack', 'tbbare', 'tbell', 'tbwrongmsg', 'tbwrongtype', 'tbdetail', 'tbdots', 'tbdotssuffix'}
+TB_KINDS = {'tb', 'tbstack', 'tbbare', 'tbell', 'tbwrongmsg', 'tbwrongtype', 'tbdetail', 'tbdots', 'tbdotssuffix', 'tbinner'}
 # 'tbdotsonly' (header + ellipsis, no final line) is deliberately absent: it is not a traceback block
 
 
@@ -130,7 +130,7 @@ def tb_matches(st, ex, flags):
     Decided by construction: identical / unique-different / prefix...  ->
     True / False / None (silent)"""
     kind = st['want']
-    nominal = W.exc_last_line(st['exc'])
+    nominal = W.exc_last_line(st['exc']) if kind != 'tbinner' else W.inner_last_line(st)
     got = exc_identity(ex)
     nom_cls = nominal.split(':', 1)[0].strip()
     got_cls = got.split(':', 1)[0].split('\n', 1)[0].strip()
@@ -138,6 +138,11 @@ def tb_matches(st, ex, flags):
     ied = flags['IGNORE_EXCEPTION_DETAIL']
     if kind == 'tbdotssuffix':
         return False
+    if kind == 'tbinner':
+        # the want names the exception that was being handled; what matters is the one raised
+        if got == nominal:
+            return True
+        return same_cls_short if ied else False
     if kind in ('tb', 'tbstack', 'tbbare', 'tbdots'):
         if got == nominal:
             return True
@@ -299,6 +304,14 @@ def _model_loop(E, dt, steps, msteps, dtid, k, ctx, modtext, modname):
             else:
                 _fail(E, idx, ['GotWantException'], True, (ms['want_line'], ms['want_line']))
             E.notes.append('traceback want but nothing raised')
+            break
+        if want == 'none':
+            # the value of the expression statement is None and its repr is the want
+            # (only generated where the statement is evaluated as an expression, not in REPL mode)
+            if W.is_expr(st) and not res['has_value']:
+                window = []
+                continue
+            _fail(E, idx, ['GotWantException'], True, (ms['want_line'], ms['want_line']))
             break
         if want == 'coro':
             # by construction: the value's repr starts with the spelled-out prefix; the
